@@ -192,6 +192,25 @@ def r1(ctx: Ctx, prog: sf.SqlProgram) -> None:
         badp = sorted((f, t) for f in froms for t in tos if t != '<unchanged>' and t != f and t not in ALLOWED[f])
         ctx.check(not badp, 'R1', cons, f'can move a job {badp[0][0]} -> {badp[0][1]}, which the lifecycle forbids (all illegal pairs: {badp})' if badp else '',
                   r.file, r.line_of(st), detail={'from': sorted(froms), 'to': sorted(tos)})
+    # triggers that rewrite the state of the row being written (SET NEW.state = ..)
+    for name, r in sorted(prog.routines.items()):
+        a = r.ast
+        if r.kind != 'trigger' or a.table.lower() != 'jobs':
+            continue
+        for st, guard in sf.guarded_statements(a.body):
+            if st.kind != 'set':
+                continue
+            for t, v in st.assigns:
+                if t.kind == 'col' and len(t.parts) == 2 and t.parts[0].upper() == 'NEW' and t.parts[1].lower() == 'state':
+                    n_sites += 1
+                    tos = to_values(v, param_domain) if not (v.kind == 'col' and text(v).lower() == 'old.state') else {'<unchanged>'}
+                    froms = set()
+                    for s_ in STATES:
+                        if all(pol in may(c, lambda n, s_=s_: s_ if (n.kind == 'col' and text(n).lower() == 'old.state') else UNKNOWN) for c, pol in guard):
+                            froms.add(s_)
+                    badp = sorted((f, t_) for f in froms for t_ in tos if t_ != '<unchanged>' and t_ != f and t_ not in ALLOWED[f])
+                    ctx.check(not badp, 'R1', f'{r.file}::{name}::SET NEW.state = {text(v)}', f'trigger {name} can turn a job {badp[0][0]} -> {badp[0][1]} whatever the statement wrote '
+                              f'(illegal pairs: {badp})' if badp else '', r.file, r.line_of(st), detail={'from': sorted(froms), 'to': sorted(tos)})
     # embedded Python writers
     for rel in pf.walk_py(PY_DIRS):
         m = pf.load(rel)
